@@ -101,6 +101,7 @@ pub enum ScopeKind {
     Root,
     Record(RecordId),
     Foreach(EcoString, VariableId),
+    Block,
     Defset(DefsetId),
     Multiclass(MulticlassId),
     Defm(DefmId),
